@@ -485,37 +485,6 @@ type c13Hist struct {
 	Expected []c13R      `json:"expected_unsliced,omitempty"`
 }
 
-// Known finding C13-cache-key-rounds-end: rangeQuery.CacheKey identifies a slice by End.Round(step), so two queries whose
-// ends differ by less than a step but lie on different sides of a grid point share the cached LAST slice: the later one
-// is answered without (or with) that grid point.  Class predicate: an earlier query on the same client has the same
-// expression, step and start second, an end that rounds to the same multiple of the step, and a different number of grid
-// points in the window.
-const c13KnownRoundedEnd = "C13-cache-key-rounds-end"
-
-func c13SharesRoundedEnd(c *c13E2E, name string, hi int) bool {
-	h := c.History[hi]
-	type q struct{ start, end, step int64 }
-	earlier := []q{{c.Start, c.End, c.Step}}
-	for _, o := range c.History[:hi] {
-		if o.Expr == h.Expr || (o.Expr == "" && h.Expr == name) {
-			earlier = append(earlier, q{o.Start, o.End, o.Step})
-		}
-	}
-	if h.Expr != name {
-		earlier = earlier[1:]
-	}
-	pts := func(x q) int64 {
-		return (c13WireNs(x.end) - c13FirstStart(x.start, x.end, x.end-x.start, x.step)) / x.step
-	}
-	for _, o := range earlier {
-		if o.step == h.Step && o.start/c13Sec == h.Start/c13Sec &&
-			c13RoundTo(o.end, o.step) == c13RoundTo(h.End, h.Step) && pts(o) != pts(q{h.Start, h.End, h.Step}) {
-			return true
-		}
-	}
-	return false
-}
-
 // start of the first slice RangeQuery asks for (independent reference: Go's Duration.Round / Time.Round)
 func c13FirstStart(start, end, dur, step int64) int64 {
 	size := int64(time.Duration(2 * time.Hour).Round(time.Duration(step)))
@@ -718,9 +687,6 @@ func c13RunE2E(srv *c13Server, url string, c *c13E2E, watch *c13Watch) string {
 		if !c13EqRs(c13Canon(h.Result), h.Expected) {
 			repeatFail = fmt.Sprintf("a later query on the same client that differs from an earlier one only in its %s "+
 				"does not return the runs of its own unsliced evaluation (answered with slices cached for the other query?)", h.Kind)
-			if c13SharesRoundedEnd(c, name, hi) {
-				c.Known = c13KnownRoundedEnd
-			}
 		}
 	}
 	c.mu.Lock()
